@@ -14,6 +14,10 @@ open Refinery.Model.Usage Oracle
 
 def nsig : Nat := 4
 
+/-- which tracker the oracle predicts: `false` = the code as it is (`lastDataPoints` overwritten),
+`true` = the repaired tracker of `conservation_fixed` (flip when the repair lands in /repo). -/
+def variant : Bool := false
+
 def insInt (x : Int) : List Int → List Int
   | [] => [x]
   | y :: t => if x ≤ y then x :: y :: t else y :: insInt x t
@@ -33,9 +37,8 @@ def pointsStr (r : Report) : String :=
     let p := sortInts (r.points s)
     if p.isEmpty then none else some s!"{s}:{"+".intercalate (p.map toString)}")
 
-/-- the agent's `sendUsageReport`, as a sequence of tracker calls:
-NewReport; (error → return) ; SendCustomMessage … (the health check may `Add` meanwhile) ;
-accepted → completeSend ; refused → return the error. -/
+/-- the agent's `sendUsageReport` = the model's `astep … (.tick deliver mids)`; the observation is
+the error class, the number of `SendCustomMessage` calls, the report made and the report accepted. -/
 def tick (st : St) (outcome : String) (mids : List (Nat × Nat)) : Option (St × String) :=
   let info : Option (Bool × Nat) := match outcome with
     | "ok" => some (true, 1) | "pend-ok" => some (true, 2)
@@ -43,16 +46,15 @@ def tick (st : St) (outcome : String) (mids : List (Nat × Nat)) : Option (St ×
   match info with
   | none => none
   | some (deliver, sends) =>
-    match step false st .report with
-    | (st1, .report r) =>
-      let st2 := mids.foldl (fun s m => (step false s (.add m.1 m.2)).1) st1
-      let st3 := (step false st2 (if deliver then .sent else .fail)).1
+    let st3 := astep variant st (.tick deliver mids)
+    match (step variant st .report).2 with
+    | .report r =>
       let res := if deliver then "nil" else "senderr"
       let got := if deliver then pointsStr r else "none"
       some (st3, s!"res={res} sends={sends} made={pointsStr r} got={got} {stateStr st3}")
-    | (st1, .noData) => some (st1, s!"res=nodata sends=0 made=none got=none {stateStr st1}")
-    | (st1, .negative) => some (st1, s!"res=negative sends=0 made=none got=none {stateStr st1}")
-    | (st1, .none) => some (st1, "bad-op")
+    | .noData => some (st3, s!"res=nodata sends=0 made=none got=none {stateStr st3}")
+    | .negative => some (st3, s!"res=negative sends=0 made=none got=none {stateStr st3}")
+    | .none => some (st3, "bad-op")
 
 def parseMids (s : String) : Option (List (Nat × Nat)) :=
   if s == "-" then some [] else
@@ -67,17 +69,17 @@ def usageStep (st : St) (op : List String) (_ : List (List String)) : St × Opti
   match op with
   | ["add", s, v] => match s.toNat?, v.toNat? with
     | some s, some v =>
-      if s < nsig then let st' := (step false st (.add s v)).1; (st', some (stateStr st'))
+      if s < nsig then let st' := (step variant st (.add s v)).1; (st', some (stateStr st'))
       else (st, some "bad-op")
     | _, _ => (st, some "bad-op")
   | ["report"] =>
-    match step false st .report with
+    match step variant st .report with
     | (st', .report r) => (st', some s!"ok r={pointsStr r} {stateStr st'}")
     | (st', .noData) => (st', some s!"nodata {stateStr st'}")
     | (st', .negative) => (st', some s!"negative {stateStr st'}")
     | (st', .none) => (st', some "bad-op")
-  | ["sent"] => let st' := (step false st .sent).1; (st', some (stateStr st'))
-  | ["fail"] => let st' := (step false st .fail).1; (st', some (stateStr st'))
+  | ["sent"] => let st' := (step variant st .sent).1; (st', some (stateStr st'))
+  | ["fail"] => let st' := (step variant st .fail).1; (st', some (stateStr st'))
   | ["tick", o, mids] =>
     match parseMids mids with
     | none => (st, some "bad-op")
